@@ -32,6 +32,9 @@ enum Op {
     Write(usize),
     Trigger,
     Tick,
+    /// orderly stop and a new logger on the same directory (rotation namings only; the records
+    /// of the first run must survive whatever fails while the second one starts)
+    Restart(bool),
 }
 
 struct Scenario {
@@ -88,6 +91,7 @@ fn gen(rng: &mut Rng, dir: &Path, thorough: bool) -> Scenario {
         ops.push(match rng.below(10) {
             0 | 1 if rotation => Op::Trigger,
             2 => Op::Tick,
+            3 if rotation && rng.chance(1, 2) => Op::Restart(rng.chance(1, 2)),
             _ => Op::Write(rng.usize(50)),
         });
     }
@@ -136,6 +140,20 @@ pub fn child_main(a: &ChildArgs) -> i32 {
                 trig += 1;
             }
             Op::Tick => ctl::clock_advance(1_000_000_000),
+            Op::Restart(append) => {
+                acks.ack("restart");
+                driver.shutdown();
+                let mut cfg = sc.cfg.clone();
+                cfg.append = *append;
+                driver = match Driver::build(&cfg) {
+                    Ok(d) => d,
+                    Err(e) => {
+                        eprintln!("FLMON-CHILD build failed: {e}");
+                        return 4;
+                    }
+                };
+                acks.ack("restart-done");
+            }
         }
     }
     acks.ack("shutdown");
@@ -199,7 +217,7 @@ fn parse_trace(text: &str, logs: &str, ack_file: &str) -> Vec<Call> {
             let data = rest.split('"').nth(1).unwrap_or("");
             let data = data.trim_end_matches("\\n");
             let num = |p: &str| data.strip_prefix(p).and_then(|v| v.trim().parse::<u64>().ok());
-            if data == "build" {
+            if data == "build" || data == "restart" {
                 win = Win::Build;
             } else if data == "shutdown" {
                 win = Win::Shutdown;
@@ -469,14 +487,26 @@ pub fn run_case(ctx: &mut CaseCtx) -> CaseResult {
         let oldest_present = ids.first().copied().unwrap_or(u64::MAX);
         let limited = sc.cfg.clean != Clean::Never;
         let mut lost = Vec::new();
-        for s in 0..n_writes {
-            if ids.contains(&s) {
-                continue;
-            }
-            let init_failed = create_failed.contains(&s) && (0..s).all(|e| !ids.contains(&e));
-            let removed_by_limit = limited && s < oldest_present;
-            if !(write_failed.contains(&s) || init_failed || removed_by_limit) {
-                lost.push(s);
+        // the writer is set up in the first log call after a start (and again after a set-up that
+        // failed): a record is given up there if a call of the set-up failed in its window
+        let mut uninitialised = true;
+        let mut s = 0u64;
+        for op in &sc.ops {
+            match op {
+                Op::Restart(_) => uninitialised = true,
+                Op::Write(_) => {
+                    let present = ids.contains(&s);
+                    let setup_failed = uninitialised && create_failed.contains(&s);
+                    if present || !setup_failed {
+                        uninitialised = false;
+                    }
+                    let removed_by_limit = limited && s < oldest_present;
+                    if !present && !(write_failed.contains(&s) || setup_failed || removed_by_limit) {
+                        lost.push(s);
+                    }
+                    s += 1;
+                }
+                _ => {}
             }
         }
         if !lost.is_empty() {
@@ -552,6 +582,10 @@ pub fn run_case(ctx: &mut CaseCtx) -> CaseResult {
                     trig += 1;
                 }
                 Op::Tick => {}
+                Op::Restart(_) => {
+                    prev_written = None;
+                    pending_trigger = false;
+                }
             }
         }
         if let Some((p, q)) = not_separated {
